@@ -283,6 +283,12 @@ void InterfaceMakerPythonSimple::write_function_instance(ostream &out, Interface
         format_specifiers += "s";
         parameter_list += ", &" + param_name;
 
+      } else if (TypeManager::is_wchar_pointer(orig_type)) {
+        out << "Py_UNICODE *" << param_name;
+        format_specifiers += "u";
+        parameter_list += ", &" + param_name;
+        pexpr_string = "(wchar_t *)" + param_name;
+
       } else if (TypeManager::is_wstring(orig_type)) {
         out << "Py_UNICODE *" << param_name
             << "_str; Py_ssize_t " << param_name << "_len";
@@ -493,6 +499,10 @@ pack_return_value(ostream &out, int indent_level,
       indent(out, indent_level)
         << "return PyString_FromString(" << return_expr << ");\n";
       out << "#endif\n";
+
+    } else if (TypeManager::is_wchar_pointer(orig_type)) {
+      indent(out, indent_level)
+        << "return PyUnicode_FromWideChar(" << return_expr << ", -1);\n";
 
     } else if (TypeManager::is_wstring(orig_type)) {
       indent(out, indent_level)
